@@ -8,6 +8,7 @@ parametrization offers has scaled parameters.
 from __future__ import annotations
 
 import ast
+from fractions import Fraction
 
 from ..cfg import DataFlow
 from ..model import AnalysisError, call_name, dotted, norm_text, walk_no_nested
@@ -146,3 +147,129 @@ def run(ctx) -> None:  # noqa: F811
     c11._inner_run(OnlyConstructs(ctx, ("abtem.parametrizations",)))
     _inner_run_c25(ctx)
 
+
+# ---- added after the mutation sweep: the conversions between the forms of one atom are decided as term identities
+_inner_run_c25_forms = run
+
+
+def run(ctx) -> None:  # noqa: F811
+    from ..rules import c25_forms as F
+    from ..rules.ratfun import Rat
+    from ..terms import PI, Poly
+
+    ctx.rule("R-CENTRALSLICE", "the projected scattering factor of a parametrization is the 2D Fourier transform of its "
+             "projected potential, i.e. (Fourier slice theorem) the central slice of the 3D transform of its potential, "
+             "which is scattering_factor / kappa.  Both callables take the squared spatial frequency, so for every "
+             "component j:  kappa * K_psf(x; scaled('projected_scattering_factor')) == K_sf(x; scaled('scattering_factor')) "
+             "as rational functions of x, the table rows, pi and kappa (exp factors compared by the normal form of "
+             "their argument).  The scaled rows are read from scaled_parameters, the kernels K from "
+             "abtem/parametrizations/functions.  A wrong power, a swapped table row or a misplaced kappa in a "
+             "conversion makes the reciprocal-space forms describe different atoms")
+    ctx.rule("R-GAUSSPAIR", "Gaussian addends A*exp(-B*r^2) of the potential kernel: the projected potential has the "
+             "addend A*sqrt(pi/B)*exp(-B*r^2) (analytic projection along z) and the projected scattering factor the "
+             "addend A'*exp(-B'*k^2) with A' = A_pp*pi/B_pp, B' = pi^2/B_pp (2D Fourier transform of a Gaussian); "
+             "amplitudes and exponents are compared as terms after substituting the scaled rows of each form")
+    ctx.rule("R-FINITEZ", "finite (z-limited) projections integrate the real-space Gaussian exp(-B z^2) over [a, b]: "
+             "the erf scale (third row) is sqrt(B) with B the exponent row of projected_potential, for the real-space "
+             "AND for the reciprocal-space finite form (the z integration is in real space in both); their first two "
+             "rows are the rows of projected_potential / projected_scattering_factor")
+    repo = ctx.repo
+    base = repo.cls(MOD, "Parametrization")
+    classes = sorted((c for c in repo.subclasses(base) if c.own_method("scaled_parameters") is not None),
+                     key=lambda k: k.name)
+    kappa = Rat(Poly.atom(F.KAPPA))
+    n_slice = n_gauss = 0
+    for c in classes:
+        f = c.own_method("scaled_parameters")
+        fa = c.find_class_attr("_functions")
+        offered = {k.value for k in fa[1].keys if isinstance(k, ast.Constant)} if fa and isinstance(fa[1], ast.Dict) \
+            else set()
+        if not {"scattering_factor", "projected_scattering_factor"} <= offered:
+            ctx.info("R-CENTRALSLICE", c.qualname, c.where, "does not offer both scattering-factor forms")
+            continue
+        rows = F.scaled_rows(c)
+        for need in ("scattering_factor", "projected_scattering_factor"):
+            ctx.require(need in rows, f"{c.qualname}: no scaled parameters for '{need}'")
+        sf = F.kernel_components(F.resolve_kernel(repo, c, "scattering_factor"), rows["scattering_factor"])
+        psf = F.kernel_components(F.resolve_kernel(repo, c, "projected_scattering_factor"),
+                                  rows["projected_scattering_factor"])
+        ctx.require(set(sf) == set(psf) and sf, f"{c.qualname}: the two kernels have different components")
+        bad = None
+        for j in sorted(sf):
+            a, b = F.total(sf[j]), F.total(psf[j]) * kappa
+            if not (a == b):
+                bad = (j, a, b)
+                break
+        n_slice += 1
+        ctx.check(bad is None, "R-CENTRALSLICE", f"{c.qualname}:projected_scattering_factor", f.where,
+                  f"kappa * projected_scattering_factor == scattering_factor for all {len(sf)} components",
+                  (f"component {bad[0]}: scattering_factor is {bad[1].key()[:150]} but kappa * "
+                   f"projected_scattering_factor is {bad[2].key()[:220]} (T<i>_<j> = table row i, component j; "
+                   "x = k^2): the conversion of the table to the scaled parameters is not the Fourier pair")
+                  if bad else "", key_detail="central-slice")
+
+        # ---- R-GAUSSPAIR
+        if not {"potential", "projected_potential"} <= offered:
+            continue
+        pot = F.kernel_components(F.resolve_kernel(repo, c, "potential"), rows["potential"])
+        gp = {j: [g for g in map(F.gaussian, comps) if g is not None] for j, comps in pot.items()}
+        if not any(gp.values()):
+            ctx.info("R-GAUSSPAIR", c.qualname, c.where, "the potential kernel has no Gaussian addends")
+            continue
+        pp = F.kernel_components(F.resolve_kernel(repo, c, "projected_potential"), rows["projected_potential"])
+        gpp = {j: [g for g in map(F.gaussian, comps) if g is not None] for j, comps in pp.items()}
+        gpsf = {j: [g for g in map(F.gaussian, comps) if g is not None] for j, comps in psf.items()}
+        pi = Poly.atom(PI)
+        problems = []
+        for j in sorted(gp):
+            ctx.require(len(gp[j]) == 1 and len(gpp.get(j, [])) == 1 and len(gpsf.get(j, [])) == 1,
+                        f"{c.qualname}: component {j} does not have exactly one Gaussian addend in each of potential / "
+                        "projected_potential / projected_scattering_factor")
+            (A, B, n), (Ap, Bp, np_), (Af, Bf, nf) = gp[j][0], gpp[j][0], gpsf[j][0]
+            ctx.require(n == 2 and np_ == 2 and nf == 1, f"{c.qualname}: Gaussian addends in unexpected variables")
+            ctx.require(B.is_monomial() and Bp.is_monomial(), f"{c.qualname}: Gaussian exponent is not a monomial")
+            if not (Bp == B):
+                problems.append(f"component {j}: projected_potential decays with {Bp.key()}, potential with {B.key()}")
+            elif not (Ap == A * (pi * B.inverse()).power(Fraction(1, 2))):
+                problems.append(f"component {j}: projected_potential amplitude {Ap.key()} is not "
+                                f"A*sqrt(pi/B) = {(A * (pi * B.inverse()).power(Fraction(1, 2))).key()}")
+            if not (Bf == pi * pi * Bp.inverse()):
+                problems.append(f"component {j}: projected_scattering_factor decays with {Bf.key()}, the transform of "
+                                f"the projected potential with {(pi * pi * Bp.inverse()).key()}")
+            elif not (Af == Ap * pi * Bp.inverse()):
+                problems.append(f"component {j}: projected_scattering_factor amplitude {Af.key()} is not "
+                                f"A_pp*pi/B_pp = {(Ap * pi * Bp.inverse()).key()}")
+        n_gauss += 1
+        ctx.check(not problems, "R-GAUSSPAIR", f"{c.qualname}:gaussian addends", f.where,
+                  f"{len(gp)} Gaussian components: projection and 2D transform agree",
+                  "; ".join(problems[:2]) + (f" (+{len(problems) - 2} more)" if len(problems) > 2 else ""),
+                  key_detail="gauss")
+
+        # ---- R-FINITEZ
+        fin = [n for n in ("finite_projected_potential", "finite_projected_scattering_factor") if n in offered]
+        for name, src in (("finite_projected_potential", "projected_potential"),
+                          ("finite_projected_scattering_factor", "projected_scattering_factor")):
+            if name not in offered:
+                continue
+            ctx.require(name in rows and isinstance(rows[name], list) and isinstance(rows[src], list),
+                        f"{c.qualname}: rows of '{name}' not read")
+            fk = F.resolve_kernel(repo, c, name)
+            pk = fk.positional_params[1] if len(fk.positional_params) > 1 else "?"
+            erfs = [x for x in ast.walk(fk.node) if isinstance(x, ast.Call) and (call_name(x) or "").split(".")[-1] == "erf"]
+            ctx.require(bool(erfs) and all(any(isinstance(y, ast.Subscript) and dotted(y.value) == pk and
+                                               norm_text(y.slice) == "2" for y in ast.walk(x)) for x in erfs),
+                        f"{fk.qualname}: not an erf-limited Gaussian kernel with the erf scale in row 2")
+            r, s = rows[name], rows[src]
+            ctx.require(len(r) == 3 and len(s) == 2, f"{c.qualname}: '{name}' is expected to have 3 rows")
+            Bpp = rows["projected_potential"][1]
+            good_rows = r[0] == s[0] and r[1] == s[1]
+            good_z = r[2] * r[2] == Bpp
+            ctx.check(good_rows and good_z, "R-FINITEZ", f"{c.qualname}:{name}", f.where,
+                      "rows 0,1 are those of the infinite projection; erf scale^2 == real-space Gaussian exponent",
+                      (f"the first two rows of '{name}' are not the rows of '{src}'" if not good_rows else
+                       f"the erf scale of '{name}' is {r[2].key()}, its square is not the real-space Gaussian exponent "
+                       f"{Bpp.key()} of projected_potential: the z-limited integral belongs to another atom"),
+                      key_detail="finite")
+    ctx.require(n_slice >= 3, f"R-CENTRALSLICE matched {n_slice} parametrizations")
+    ctx.require(n_gauss >= 2, f"R-GAUSSPAIR matched {n_gauss} parametrizations")
+    _inner_run_c25_forms(ctx)
